@@ -272,6 +272,19 @@ def job_scale(job):
         job.prove(f"scale/factor == c mu z / (2 p) at p_i[path{k}]", pr.pc + [not_close(factor, c * mu * z / (2 * p), abs_tol=Fraction(0))], bound="3-row table, p_i a node")
         slope = c / ((2 * p / (mu * z)) * factor)     # (1/rho_i) d rho/dp  /  (dm/dp * factor)
         job.prove(f"scale/d(rho/rho_i)/d(m~) == 1 at p_i[path{k}]", pr.pc + [not_close(slope, Q(1), abs_tol=Fraction(0))], bound="3-row table, p_i a node")
+    # an initial pressure between two table rows: the factor is the table's (linearly interpolated) c mu z / (2 p) at p_i itself
+    pim = fresh("p_i_mid", pos=True)
+    dom_mid = dom + [T.b_lt(P(ps[0]), P(pim)), T.b_lt(P(pim), P(ps[1]))]
+    for k, pr in enumerate(paths(job, lambda: mod.FlowProperties({k_: SymArray(list(v.d), "f8") for k_, v in tab.items()}, pim), dom_mid, max_paths=64)):
+        if pr.exc is not None:
+            job.prove(f"scale/p_i between rows raises {type(pr.exc).__name__}[path{k}]", pr.pc, bound="3-row table", replay=replay_scale_mid, note=repr(pr.exc)[:80])
+            continue
+        obj = pr.value
+        factor = obj.pvt_props["m-scaled"].d[2] / pp[2]
+        node_s = [cols["compressibility"][j] * cols["viscosity"][j] * cols["z-factor"][j] / (2 * ps[j]) for j in (0, 1)]
+        want = node_s[0] + (node_s[1] - node_s[0]) * (pim - ps[0]) / (ps[1] - ps[0])
+        job.prove(f"scale/p_i between two rows: factor == the table's c mu z / (2 p) interpolated at p_i[path{k}]",
+                  pr.pc + [not_close(factor, want, abs_tol=Fraction(0))], bound="3-row table, p_i in the first interval", replay=replay_scale_mid)
     # a sweep over pressure pairs builds several wrappers from the SAME table object: the scaling of each one is that of
     # its own initial pressure (nothing the first construction derived may steer the second)
     node2 = 2
@@ -289,6 +302,25 @@ def job_scale(job):
         c, mu, z, p = cols["compressibility"][node2], cols["viscosity"][node2], cols["z-factor"][node2], ps[node2]
         job.prove(f"scale/second wrapper built from the same table: factor == c mu z / (2 p) at its own p_i[path{k}]",
                   pr.pc + [not_close(factor, c * mu * z / (2 * p), abs_tol=Fraction(0))], bound="3-row table, p_i a node", replay=replay_scale_twice)
+
+
+def replay_scale_mid(model):
+    """FlowProperties with an initial pressure between two table rows: the scaling is the table's c mu z / (2 p) interpolated at p_i."""
+    import warnings
+    import numpy as np
+    from bluebonnet.flow import FlowProperties
+    p = np.array([1000.0, 3000.0, 6000.0, 9000.0])
+    tab = {"pressure": p, "pseudopressure": p ** 2 / 2e3, "compressibility": 1.0 / p, "viscosity": np.full(4, 0.02), "z-factor": np.ones(4)}
+    problems = []
+    for pi in (1700.0, 4020.0, 8000.0):
+        with warnings.catch_warnings():
+            warnings.simplefilter("ignore")
+            o = FlowProperties({k: v.copy() for k, v in tab.items()}, pi)
+        got = float(np.asarray(o.pvt_props["m-scaled"], float)[-1] / tab["pseudopressure"][-1])
+        want = float(np.interp(pi, p, tab["compressibility"] * tab["viscosity"] * tab["z-factor"] / (2 * p)))
+        if abs(got - want) > 1e-12 * abs(want):
+            problems.append(f"p_i={pi}: scaling factor {got!r} vs the table's c mu z/(2p) interpolated at p_i {want!r}")
+    return bool(problems), {"what": "; ".join(problems[:2]) or "scaling factor interpolated at p_i", "inputs": {}}
 
 
 def replay_scale_twice(model):
